@@ -1386,7 +1386,7 @@ def run(rep, tier, seed):
     # 2. spec -> code: TLC's trees, as real objects, through Database.writeToDB / Database.load
     eres, cases = generic_cases("Layout_emit%s.cfg" % sfx)
     rep.add_tlc("cases:Layout_emit%s.cfg" % sfx, eres)
-    ncase = 1500 if thorough else (150 if _SELFTEST else 260)
+    ncase = 1200 if thorough else (150 if _SELFTEST else 260)
     rng = random.Random(seed)
     sample = cases if len(cases) <= ncase else rng.sample(cases, ncase)
     if not sample or not any(not c["sortable"] for c in sample) or not any(c["sortable"] for c in sample):
@@ -1410,7 +1410,7 @@ def run(rep, tier, seed):
     rep.sample({"kind": "generic-tree", "tree": sample[len(sample) // 2]["t"], "expected_file": sample[len(sample) // 2]["file"]})
 
     # 3. code -> spec: real histories on reactors armi builds from generated blueprints
-    nh = 120 if thorough else (6 if _SELFTEST else 8)
+    nh = 90 if thorough else (6 if _SELFTEST else 8)
     plan = history_plan(nh, seed)
     wd = common.workdir("c04")
     hs, traces = run_histories(plan, wd)
